@@ -40,10 +40,8 @@ prop(
         "that are symbolic together (durability+deadline+latency budget; liveliness kind+lease with presentation "
         "scope/coherent/ordered; reliability+destination order+ownership; data representation lists with length pairs "
         "(0,0),(1,0),(0,1),(1,2),(2,1) - the other four pairs of 0..2 x 0..2 in the thorough tier) and two thorough cross-group "
-        "obligations with four policies at once. Two genuine defects are kept as "
-        "known-finding harnesses restricted to their exact triggers (KF-C15-1 liveliness lease compared lexicographically, "
-        "KF-C15-2 presentation flags compared with !=); outside the triggers the liveliness/presentation verdicts are asserted, "
-        "and the agreement of the two sides is asserted everywhere."),
+        "obligations with four policies at once. The full oracle is asserted everywhere; two focused regression obligations "
+        "(c15_liveliness_lease, c15_presentation_flags) additionally cover the regions of the two defects these checks found."),
     bounds="no bound on scalar domains: all kinds of every policy on both sides; deadline, latency budget, liveliness lease = Infinite or "
            "Finite(any i32 sec, any nanosec < 10^9) on both sides; representation lists of length 0..2 with any u16 ids; at most 4 policies "
            "symbolic in one obligation (the rest at their defaults); unwind 10 (result list of at most 9 ids)",
@@ -55,12 +53,12 @@ prop(
             "(unreachable through Duration::new)",
     level_text="Bounded model checking (Kani/CBMC) of the real matching functions against a reference table; scalar domains are complete, "
                "the bound is the grouping of policies and list length <= 2; level 'other'.",
-    level_note="trusted: Kani/CBMC, the 20-line reference table in c15_matching.rs (cites the DDS clauses). Two open known findings: "
-               "KF-C15-1 (liveliness lease, derived PartialOrd) and KF-C15-2 (presentation coherent/ordered compared with !=); their "
-               "trigger regions are excluded from the 'holds' obligations and kept as expected-to-fail harnesses.",
+    level_note="trusted: Kani/CBMC, the 20-line reference table in c15_matching.rs (cites the DDS clauses). These checks found two defects, "
+               "both repaired in /repo and recorded as 'fixed:' in known_findings.json: KF-C15-1 (liveliness lease compared through the derived "
+               "lexicographic PartialOrd; fix 396d539) and KF-C15-2 (presentation coherent/ordered compared with !=; fix 2511071). Nothing is "
+               "suppressed: every obligation asserts the complete table.",
     technique="Kani/CBMC symbolic execution of both real compatibility functions on one symbolic QoS quadruple, compared with a DDS-table oracle",
     assumptions=["nanosec < 10^9 for finite durations (Duration::new normalizes)",
-                 "liveliness verdict compared with the table only outside trigger KF-C15-1, presentation verdict only outside KF-C15-2",
                  "policies outside the symbolic group of an obligation are at their default values"],
     timeout={"quick": 900, "thorough": 2400},
     mem_gb=8,
@@ -76,14 +74,13 @@ prop(
         "max_samples_per_instance, LENGTH_UNLIMITED above every limit, reader deadline >= time-based-filter minimum_separation, "
         "a writer offers at most one data representation): Ok exactly for consistent values, otherwise Err(InconsistentPolicy); "
         "totality (no panic) over the full i32 range of the limits. The real DataWriterQos / DataReaderQos / "
-        "SubscriberQos::check_immutability are executed on two arbitrary QoS values: ImmutablePolicy whenever a Changeable=NO "
+        "SubscriberQos / PublisherQos::check_immutability are executed on two arbitrary QoS values: ImmutablePolicy whenever a Changeable=NO "
         "policy differs, Ok when only changeable policies differ. (A) On a real DcpsDomainParticipant (real constructor, real "
         "create_topic / create_user_defined_publisher / create_user_defined_subscriber) one real set_topic_qos / set_subscriber_qos / "
         "set_publisher_qos / set_default_topic_qos / create_topic with symbolic QoS and symbolic enabled flag: Ok exactly when the "
         "reference model accepts; Err is InconsistentPolicy / ImmutablePolicy and the stored QoS is the previous one; Ok stores the "
-        "argument; get_topic_qos returns the stored QoS for any stored scalar policies. Two genuine defects are kept as known-finding "
-        "harnesses: KF-C37-1 (set_publisher_qos has no immutability check for PRESENTATION), KF-C37-2 (create_topic never checks "
-        "consistency of a specific QoS)."),
+        "argument; get_topic_qos returns the stored QoS for any stored scalar policies. create_topic: Ok exactly for a consistent "
+        "specific QoS, otherwise InconsistentPolicy and no topic is created."),
     bounds="QoS scalars complete (all kinds, durations Infinite / Finite(any i32, nanosec < 10^9), history KEEP_ALL / KEEP_LAST(any u32), limits "
            "Unlimited / Limited(any i32 >= 0) for the exact oracle and any i32 for totality); representation lists 0..2 in the kernels, empty in "
            "the participant obligations; one participant with one topic / publisher / subscriber; one set/create operation per obligation "
@@ -101,8 +98,10 @@ prop(
     level_text="Bounded model checking (Kani/CBMC): loop-free validation kernels over complete scalar domains plus one real operation on a "
                "real participant aggregate; level 'other'.",
     level_note="trusted: Kani/CBMC; reference model in support_qos.rs (DDS 2.2.3 rules, Changeable column); stubs TypeInformation::from and "
-               "alloc::fmt::format in the topic obligations (values not read by the QoS operations). Open known findings KF-C37-1, KF-C37-2. "
-               "The claim covers topics, publishers, subscribers and the validation kernels; writer/reader setters are outside (measured reason).",
+               "alloc::fmt::format in the topic obligations (values not read by the QoS operations). These checks found two defects, both "
+               "repaired in /repo and recorded as 'fixed:' in known_findings.json: KF-C37-1 (set_publisher_qos had no immutability check for "
+               "PRESENTATION; fix 304fddb) and KF-C37-2 (create_topic did not check the consistency of a specific QoS; fix f1ee1de); nothing "
+               "is suppressed. The claim covers topics, publishers, subscribers and the validation kernels; writer/reader setters are outside (measured reason).",
     technique="Kani/CBMC symbolic execution of the real QoS validation functions and of one real set_qos/create operation on a real participant",
     assumptions=["Limited(n) resource limits have n >= 0 for the exact consistency oracle",
                  "enabled flag (and previous presentation for publisher/subscriber) written directly into the entity before the operation",
@@ -125,26 +124,27 @@ prop(
         "the real decoder ParameterList::{new, get_optional_parameter, get_non_optional_parameter} (seek_to_pid / PidIterator) for ANY "
         "looked-up id: the first parameter with that id is returned with exactly its bytes plus padding, parameters with other ids "
         "(unknown, PID_PAD, vendor-specific) before and after it are skipped, an absent id yields the default / PidNotFound. A hand-built "
-        "big-endian list is decoded for every id other than the header alias. Known finding KF-C13-2 (the iterator parses the "
-        "encapsulation header as a parameter: big-endian lists lose PID_PARTICIPANT_LEASE_DURATION) is kept as an expected-to-fail "
-        "harness; KF-C13-1 (length field truncated by `as u16` above 65532 bytes) is reported by inspection only."),
+        "big-endian list is decoded for ANY written and looked-up id, including PID_PARTICIPANT_LEASE_DURATION = 0x0002, the value "
+        "the big-endian encapsulation header would read as (the defect found here, KF-C13-2, is repaired)."),
     bounds="value lengths 0..8 bytes (concrete per case), bytes symbolic; ids any i16 except 1 (sentinel); lists of 1 parameter (length 3) and 3 "
-           "parameters (lengths 0,3,8; thorough also 6,4,1 and the empty list) for the decoder; looked-up id any i16 except 1 and 0x0300; "
+           "parameters (lengths 0,3,8; thorough also 6,4,1 and the empty list) for the decoder; looked-up id any i16 except 1; "
            "unwind 5..11",
     outside="ALL values: QoS, locators, type information, strings and octet sequences are serialized through DynamicData / the XTypes "
             "serializer, which CBMC cannot execute (DESIGN.md section 2) - the property's 'decodes back to the data that was announced' is "
             "NOT claimed, only that the framing layer carries raw value bytes unchanged; values longer than 8 bytes and in particular the "
-            "> 65535-byte case named by the property (CBMC crashes / exceeds 600 s on a 64 KiB buffer, measured); symbolic value lengths "
-            "(make every later write's realloc path feasible: 1.4 M steps, > 10 GB for two parameters); get_locator_list; looked-up id 0x0300 "
-            "(= the little-endian encapsulation header read as an id; no PID has that value)",
+            "> 65535-byte case named by the property (CBMC crashes / exceeds 600 s on a 64 KiB buffer, measured). Observation from code reading, "
+            "NOT decided by any check: write_cdr_parameter stores `(padded value length) as u16` "
+            "(rtps_data_representation_serialization.rs:47), so a value longer than 65532 bytes would be announced with a wrapped length "
+            "field; symbolic value lengths (make every later write's realloc path feasible: 1.4 M steps, > 10 GB for two parameters); "
+            "get_locator_list",
     level_text="Bounded model checking (Kani/CBMC) of the real parameter-list encoder against the real decoder at framing level; "
                "a deliberately reduced claim; level 'other'.",
     level_note="trusted: Kani/CBMC and the RTPS 9.4.2.11 layout written in c13_framing.rs. This is the framing-only obligation announced in "
-               "DESIGN.md section 5; it does not establish the value round trip of C13. Open known finding KF-C13-2; KF-C13-1 reported "
-               "without a harness.",
+               "DESIGN.md section 5; it does not establish the value round trip of C13. These checks found KF-C13-2 (PidIterator parsed the "
+               "encapsulation header as a parameter, so big-endian lists lost PID_PARTICIPANT_LEASE_DURATION), repaired in /repo (fix d2848ed) "
+               "and recorded as 'fixed:' in known_findings.json; nothing is suppressed.",
     technique="Kani/CBMC symbolic execution of the real ParameterListSerializer feeding the real ParameterList/PidIterator",
-    assumptions=["looked-up id != 0x0300 (little-endian header alias, not a PID)",
-                 "output buffer created with capacity 64 (no reallocation while writing; capacity is not observable by the serializer)",
+    assumptions=["output buffer created with capacity 64 (no reallocation while writing; capacity is not observable by the serializer)",
                  "value lengths are concrete per case (0..8)"],
     timeout={"quick": 900, "thorough": 2400},
     mem_gb=8,
